@@ -41,7 +41,9 @@ static inline int post_verif_broadcast_shape(sv_t a, sv_t b, opt_hn_t ret)
   return IMPLIES(g < spec_bcast_dim(a, b), spec_bcast_compat(a, b, g) && HN_AT(OPT_VAL(ret), g) == spec_bcast_extent(a, b, g));
 }
 
-/* ---- kind F (std::array operands, meta::template_for branch): the SAME rule through a logical conversion */
+/* ---- kind F (std::array operands, meta::template_for branch): the SAME rule through a logical conversion
+ * (TUs that reuse this header without instantiating kind F define C06_NO_FIXED first) */
+#ifndef C06_NO_FIXED
 #ifndef ARR_AT
 #ifdef VERIF_NATIVE
   #define ARR_AT(a, i) ((a)[i])
@@ -68,6 +70,7 @@ static inline int pre_verif_f_broadcast_shape(a3_t a, a3_t b) { return 1; }
 static inline int post_verif_f_broadcast_shape(a3_t a, a3_t b, opt_a3_t ret) { return c06_post_fixed(c06_sv3(a), c06_sv3(b), ret); }
 static inline int pre_verif_f_broadcast_shape32(a3_t a, a2_t b) { return 1; }
 static inline int post_verif_f_broadcast_shape32(a3_t a, a2_t b, opt_a3_t ret) { return c06_post_fixed(c06_sv3(a), c06_sv2(b), ret); }
+#endif /* C06_NO_FIXED */
 
 /* ---- shape_broadcast_to(a -> b): NumPy broadcast_to rule; result (b, free_axes) */
 static inline int spec_bto_axis_ok(sv_t a, sv_t b, unsigned long k)   /* k: axis of b */
